@@ -183,6 +183,34 @@ def v_yield(ex, g, fid, args):
     return None
 
 
+@vfunc("vIte")
+def v_ite(ex, g, fid, args):
+    return ite(args[0], args[1], args[2], 64)
+
+
+@vfunc("vAnd")
+def v_and(ex, g, fid, args):
+    return simp(band(args[0], args[1]))
+
+
+@vfunc("vOr")
+def v_or(ex, g, fid, args):
+    return simp(bor(args[0], args[1]))
+
+
+@vfunc("vEqBytes")
+def v_eqbytes(ex, g, fid, args):
+    a, b = args
+    if a.len != b.len:
+        return False
+    return ex.eq(tuple(slice_elems(a)), tuple(slice_elems(b)))
+
+
+@vfunc("vThorough")
+def v_thorough(ex, g, fid, args):
+    return ex.opts.get("tier") == "thorough"
+
+
 @vfunc("vSymbolic")
 def v_symbolic(ex, g, fid, args):
     return ex.pinned is None
